@@ -41,9 +41,9 @@ type c14Case struct {
 }
 
 func c14(c *vc.Ctx) {
-	space := synSpace{Depth: 2, CoreOnly: true, LayoutDepth: vc.Pick(c, 1, 2), Corpus: true, AllVariantsDeep: true}
+	space := synSpace{Depth: 2, CoreOnly: true, LayoutDepth: vc.Pick(c, 1, 2), Corpus: true, AllVariantsDeep: !c.Quick()}
 	fullDepth2 := !c.Quick()
-	pairDepth := vc.Pick(c, 0, 1)
+	pairDepth := 1 // depth 0 has no compound templates, hence no two comment gaps
 	truncDepth := vc.Pick(c, 0, 1)
 	c.Rule = space.describe() + fmt.Sprintf("; of the layout deviations only those that insert a comment are run (Walk reads positions only next to comments); plus (thorough: %v) every depth-2 expansion without the core-context restriction; plus every PAIR of comment deviations at two different gaps of the depth<=%d templates (depth 1: templates with <=8 gaps); plus %d programs of mc/checks/c14_extra.go aimed at node fields the grammar does not reach; plus every proper prefix (cut at each byte) of the corpus programs of <=60 bytes, of the depth<=%d grammar programs and of C14's own programs, parsed with RecoverErrors(4), kept when the parser returns a tree without error; every program in all 5 variants, comments kept. Per tree: expected nodes = reflection over exported fields (identity: pointer and type; Comment values by value since Walk hands out copies); Walk with an always-true callback, Walk pruned at EVERY node index, Preorder consumed fully and cut at EVERY position. distinct = distinct tree shapes (node type + parent index sequence)", fullDepth2, pairDepth, len(c14ExtraPrograms), truncDepth)
 	c.Assumptions = []string{
@@ -56,23 +56,10 @@ func c14(c *vc.Ctx) {
 	var skippedLayout atomic.Int64
 	debug.SetGCPercent(400) // allocation-heavy, small live heap apart from the generator's dedup sets
 	gen := func(emit func(c14Case)) {
-		genSyn(c, space, func(t synCase) {
-			if t.Kind == 2 && !strings.Contains(t.Src, "#") {
-				// a layout deviation without a comment gives the tree shape of
-				// the default layout with other positions; Walk reads positions
-				// only where a Comments list is non-empty
-				skippedLayout.Add(1)
-				return
-			}
-			emit(c14Case{Src: t.Src, Variant: t.Variant, Kind: t.Kind})
-		})
 		all := func(src string, kind, rec int) {
 			for _, v := range synt.Variants {
 				emit(c14Case{Src: src, Variant: v.Name, Kind: kind, Recover: rec})
 			}
-		}
-		if fullDepth2 {
-			synt.Sources(2, false, -1, func(x synt.Source) { all(x.Text, 3, 0) })
 		}
 		// pairs of comments (same enumeration as C05)
 		seen := map[string]bool{}
@@ -121,6 +108,21 @@ func c14(c *vc.Ctx) {
 		synt.Sources(truncDepth, false, -1, func(x synt.Source) { trunc(x.Text) })
 		for _, src := range c14ExtraPrograms {
 			trunc(src)
+		}
+		// the bulk comes last, so that a run cut short by the time budget
+		// has at least covered the targeted sets above
+		genSyn(c, space, func(t synCase) {
+			if t.Kind == 2 && !strings.Contains(t.Src, "#") {
+				// a layout deviation without a comment gives the tree shape of
+				// the default layout with other positions; Walk reads positions
+				// only where a Comments list is non-empty
+				skippedLayout.Add(1)
+				return
+			}
+			emit(c14Case{Src: t.Src, Variant: t.Variant, Kind: t.Kind})
+		})
+		if fullDepth2 {
+			synt.Sources(2, false, -1, func(x synt.Source) { all(x.Text, 3, 0) })
 		}
 	}
 	complete := vc.Run(c, gen, func(t c14Case) *vc.Fail { return c14One(c, cov, t) })
